@@ -177,12 +177,15 @@ func (p *tpPair) refStr(r vivid.ActorRef) string {
 }
 
 // spawn the target actor on system s; it records what it sees.
-func (p *tpPair) target(s *actor.System, name string, reply bool) vivid.ActorRef {
+func (p *tpPair) target(s *actor.System, name string, reply bool, goerr ...bool) vivid.ActorRef {
 	ref, _ := s.ActorOf(vivid.ActorFN(func(c vivid.ActorContext) {
 		switch m := c.Message().(type) {
 		case *tpMsg:
 			p.ev("target got %d/%s from %s", m.N, m.Tag, p.refStr(c.Sender()))
-			if reply {
+			if len(goerr) > 0 && goerr[0] {
+				// the recipient answers with a plain Go error (not a *vivid.Error): the Ask fails with it
+				c.Reply(fmt.Errorf("boom"))
+			} else if reply {
 				c.Reply(&tpMsg{N: m.N + 1000, Tag: "re"})
 			}
 		case tpVal:
@@ -242,7 +245,7 @@ func (e *transpEngine) Exec(line string) (string, string) {
 	p.mu.Lock()
 	p.home = map[string]string{"caller": p.addrA, "future": p.addrA, "target": addrOf(loc), "fwd": addrOf(floc)}
 	p.mu.Unlock()
-	tgt := p.target(home(loc), tname, op != "pipe-fail")
+	tgt := p.target(home(loc), tname, op != "pipe-fail", op == "pipe-err")
 	tref := mkRef(p.a, tgt)
 	var fref vivid.ActorRef
 	if strings.HasPrefix(op, "pipe") {
@@ -321,7 +324,7 @@ func (e *transpEngine) Exec(line string) (string, string) {
 				} else {
 					p.ev("caller ping failed")
 				}
-			case "pipe-ok", "pipe-fail":
+			case "pipe-ok", "pipe-fail", "pipe-err":
 				c.PipeTo(tref, &tpMsg{N: 9, Tag: "p"}, vivid.ActorRefs{fref}, 150*time.Millisecond)
 			}
 			close(done)
@@ -393,7 +396,7 @@ func (e *transpEngine) Generate(c *Ctx) {
 			p.stop()
 		}
 	}()
-	ops := []string{"tell", "tellv", "ask", "kill", "poison", "watch", "unwatch", "watch-twin", "unwatch-twin", "ping", "pipe-ok@local", "pipe-ok@remote", "pipe-ok@twin", "pipe-fail@local", "pipe-fail@remote", "pipe-fail@twin"}
+	ops := []string{"tell", "tellv", "ask", "kill", "poison", "watch", "unwatch", "watch-twin", "unwatch-twin", "ping", "pipe-ok@local", "pipe-ok@remote", "pipe-ok@twin", "pipe-fail@local", "pipe-fail@remote", "pipe-fail@twin", "pipe-err@local", "pipe-err@remote", "pipe-err@twin"}
 	seen := map[string][2]string{}
 	for _, cfg := range []string{"codec", "registered"} {
 		for _, op := range ops {
@@ -402,6 +405,13 @@ func (e *transpEngine) Generate(c *Ctx) {
 			}
 			var obs [2]string
 			for i, loc := range []string{"local", "remote"} {
+				if strings.HasPrefix(op, "pipe-err") && loc == "remote" {
+					// a plain Go error is a user value: replying with it across systems is a matter of the user's
+					// codec, not of the library. What the library owns is the PipeResult that carries it to a
+					// forwarder, local or remote — the target stays next to the caller.
+					obs[i] = obs[0]
+					continue
+				}
 				obs[i] = c.Case(fmt.Sprintf("tp %s %s %s", cfg, op, loc))
 				c.R.Nontrivial()
 				c.R.Hit("op:" + strings.SplitN(op, "@", 2)[0])
